@@ -4,7 +4,7 @@
 From Coq Require Import List Arith NArith Bool String.
 From Verif Require Import Lib.Sched Kv.KeyOrd Kv.AList Kv.Spec Kv.Mem Kv.Sql Kv.Skel Kv.Refine
   Kv.SeqFacts Kv.KvGen Kv.Atomic Kv.AtomicSql Kv.AtomicCor Gen.KvSql Gen.KvMemSkel.
-From Verif Require Import Kv.Retry Gen.KvRetry.
+From Verif Require Import Kv.Retry Gen.KvRetry Kv.AppendStmts.
 Import ListNotations.
 Local Open Scope string_scope.
 
@@ -77,6 +77,22 @@ Definition gen_mutate_shape : mshape :=
 
 Lemma gen_mutate_target_ok : mshape_ok gen_mutate_shape = true.
 Proof. vm_compute. reflexivity. Qed.
+
+(** AppendBytes is one autocommit statement, the upsert, on both SQL backends
+    (and returns that statement's error): what Kv/AppendStmts.v
+    [single_statement_append_atomic] is about.  An update followed by an
+    emplace loses appends to an absent key ([update_then_emplace_refuted]). *)
+Definition append_statements (tbl : methods) : list stmt :=
+  map c_stmt (calls_of (method_evs tbl "appendBytes")).
+
+Lemma gen_sqlite_append_statements :
+  append_statements gen_sqlite_methods = [SInsert [CK; CV; CC] OcAppendV] /\
+  append_statements gen_psql_methods = [SInsert [CK; CV; CC] OcAppendV] /\
+  method_evs gen_sqlite_methods "appendBytes"
+  = [ECall HDb FX (SInsert [CK; CV; CC] OcAppendV) [GTable; GTable] [GK; GBs; GEmpty]; ERet "err"] /\
+  method_evs gen_psql_methods "appendBytes"
+  = [ECall HDb FX (SInsert [CK; CV; CC] OcAppendV) [GTable; GTable] [GK; GBs; GEmpty]; ERet "err"].
+Proof. vm_compute. repeat split. Qed.
 
 Local Close Scope string_scope.
 
